@@ -28,6 +28,8 @@ class Mesh:
         # List of all added operations/shapes
         self.depot: List[AdditiveType] = []
         self.deleted: Set[Operation] = set()
+        # operations that blocks were created from, in the order of blocks
+        self.assembled: List[Operation] = []
 
         self.vertex_list = VertexList()
         self.edge_list = EdgeList()
@@ -126,6 +128,7 @@ class Mesh:
                 block.cell_zone = operation.cell_zone
 
                 self.block_list.add(block)
+                self.assembled.append(operation)
                 self.patch_list.add(vertices, operation)
                 self.face_list.add(vertices, operation)
 
@@ -143,6 +146,7 @@ class Mesh:
     def clear(self) -> None:
         """Undoes the assemble() method; clears created blocks and other lists
         but leaves added depot items intact"""
+        self.assembled.clear()
         self.vertex_list.clear()
         self.edge_list.clear()
         self.block_list.clear()
@@ -160,8 +164,9 @@ class Mesh:
         if not self.is_assembled:
             raise RuntimeError("Cannot backport non-assembled mesh")
 
-        # deleted operations have no blocks
-        operations = [operation for operation in self.operations if operation not in self.deleted]
+        # blocks exist for the operations that were assembled
+        # (not for those deleted before assembly)
+        operations = self.assembled
         blocks = self.blocks
 
         for i, block in enumerate(blocks):
